@@ -66,7 +66,7 @@ Say(kind, r, what) == SayI(kind, r, what, "")
 Chk(cond, r, what) == cond \/ Say("fail", r, what)
 ChkI(cond, r, what, info) == cond \/ SayI("fail", r, what, info)
 \* the definition kinds of a set of tags, as a string in a fixed order (narrow signatures for known findings)
-KindOrder == <<"P", "D", "L", "I", "M", "R", "N", "S", "?">>
+KindOrder == <<"P", "D", "C", "L", "I", "M", "R", "N", "S", "?">>
 KindsOf(T) ==
     LET ks == {tags[t].def.k : t \in T}
         RECURSIVE cat(_)
@@ -76,6 +76,13 @@ KindsOf(T) ==
 \* does the definition of tag t contain a sub-query, directly or through the tags it references?
 RECURSIVE HasSub(_)
 HasSub(t) == t \in DOMAIN tags /\ (tags[t].def.k = "S" \/ \E u \in Refs(tags[t].def) \cap DOMAIN tags : HasSub(u))
+
+\* does the definition of tag t contain a payload filter, directly or through the tags it references?
+RECURSIVE HasPayload(_)
+HasPayload(t) == t \in DOMAIN tags /\ (tags[t].def.k \in {"D", "C"} \/ \E u \in Refs(tags[t].def) \cap DOMAIN tags : HasPayload(u))
+\* signature of a set of offending tags: while a converter job is in flight its output is already in the cache, but tags with
+\* payload filters only learn about it when the job completes (known finding C06.*:convjob); otherwise the definition kinds
+SigOf(T) == IF flags.conv /\ T # {} /\ \A t \in T : HasPayload(t) THEN "convjob" ELSE KindsOf(T)
 
 Picks == DOMAIN tags' \cup DOMAIN tags \cup {""}
 
@@ -116,7 +123,7 @@ StepOK(r) ==
            [] ev.a = "ConvDone"      -> \E p \in Picks : ConvDone(p)
            [] ev.a = "AddTag"        -> IF r.res = "ok" THEN \E p \in Picks : AddTag(ev.name, DefOf(ev.def), Opt(ev, "color", ""), p)
                                         ELSE Rejected /\ ~AddTagOK(ev.name, DefOf(ev.def))
-           [] ev.a = "DelTag"        -> IF r.res = "ok" THEN DelTag(ev.name) ELSE Rejected /\ ~DelTagOK(ev.name)
+           [] ev.a = "DelTag"        -> IF r.res = "ok" THEN \E p \in Picks : DelTag(ev.name, p) ELSE Rejected /\ ~DelTagOK(ev.name)
            [] ev.a = "UpdQuery"      -> IF r.res = "ok" THEN \E p \in Picks : UpdQuery(ev.name, DefOf(ev.def), p)
                                         ELSE Rejected /\ ~UpdQueryOK(ev.name, DefOf(ev.def))
            [] ev.a = "MarkAdd"       -> IF r.res = "ok" THEN \E p \in Picks : MarkAdd(ev.name, ev.ids, p)
@@ -125,7 +132,7 @@ StepOK(r) ==
                                         ELSE Rejected /\ ~MarkOK(ev.name, S(ev.ids))
            [] ev.a = "ViewOpen"      -> ViewOpen(ev.v)
            [] ev.a = "ViewRelease"   -> ViewRelease(ev.v)
-           [] ev.a = "SetConverters" -> IF r.res = "ok" THEN SetConverters(ev.name, S(ev.convs))
+           [] ev.a = "SetConverters" -> IF r.res = "ok" THEN \E p \in Picks : SetConverters(ev.name, S(ev.convs), p)
                                         ELSE Rejected /\ ~SetConvOK(ev.name, S(ev.convs))
            [] ev.a = "UpdName"       -> IF Opt(ev, "new", "") = "" THEN (r.res = "ok" /\ UNCHANGED vars) \/ (r.res = "err" /\ Rejected /\ ev.name \notin DOMAIN tags)
                                         ELSE IF r.res = "ok" THEN UpdName(ev.name, ev.new) ELSE Rejected /\ ~UpdNameOK(ev.name, ev.new)
@@ -137,8 +144,8 @@ StepOK(r) ==
            [] ev.a = "SetConfig"     -> r.res = "ok" /\ SetConfig(ev.k = 1)
            [] ev.a = "CrashRestart"  -> (r.res = "ok" /\ "pre" \in DOMAIN r) => RestartOK(r)     \* a kill in the middle of a schedule; the schedule goes on
            [] ev.a \in {"Sleep", "EndSettle", "SettleExhausted"} -> UNCHANGED vars
-           [] ev.a = "ConvReset"     -> ConvReset(ev.convs[1])
-           [] ev.a = "ConvRemove"    -> IF r.res = "ok" THEN ConvRemove(ev.convs[1]) ELSE UNCHANGED vars
+           [] ev.a = "ConvReset"     -> \E p \in Picks : ConvReset(ev.convs[1], p)
+           [] ev.a = "ConvRemove"    -> IF r.res = "ok" THEN \E p \in Picks : ConvRemove(ev.convs[1], p) ELSE UNCHANGED vars
            [] ev.a = "ConvAdd"       -> IF r.res = "ok" THEN ConvAdd(ev.convs[1]) ELSE UNCHANGED vars
            [] ev.a = "ViewConvert"   -> ViewConvert(ev.v, ev.k, ev.convs[1])
            [] OTHER                  -> TRUE            \* events the model does not constrain (yet)
@@ -255,9 +262,9 @@ Props ==
        /\ Chk(DOMAIN truth = DOMAIN tags, r, "C06.truth-undefined")
        /\ DOMAIN truth = DOMAIN tags =>
             /\ ChkI(NeverStaleFor(tags, vis, truth), r, "C06.NeverStale",
-                    KindsOf({t \in DOMAIN tags : \E e \in vis : e[1] \notin tags[t].U /\ ((e[1] \in tags[t].M) # (e[1] \in truth[t]))}))
+                    SigOf({t \in DOMAIN tags : \E e \in vis : e[1] \notin tags[t].U /\ ((e[1] \in tags[t].M) # (e[1] \in truth[t]))}))
             /\ ChkI(\A t \in DOMAIN r.obs.search : S(r.obs.search[t]) = truth[t], r, "C06.SearchRight",
-                    KindsOf({t \in DOMAIN r.obs.search : S(r.obs.search[t]) # truth[t]}))
+                    SigOf({t \in DOMAIN r.obs.search : S(r.obs.search[t]) # truth[t]}))
             \* negated and combined tag filters (every undecided tag is inlined, also inverted and in products)
             /\ LET ids == {e[1] : e \in vis}
                    want(x) == CASE x.kind = "not" -> ids \ truth[x.a]
@@ -273,14 +280,19 @@ Props ==
                    \* searches that inline a tag with a sub-query (directly or through references): known finding C06.SearchRight:S
                    subs(i) == \E t \in names(i) : HasSub(t)
                    other == {i \in bad : ~subs(i)}
-               IN ChkI(bad = {}, r, "C06.SearchRightCombined", IF other = {} THEN "S" ELSE KindsOf(UNION {names(i) : i \in other}))
-            /\ Chk(\A s \in DOMAIN r.obs.shown : \A t \in S(r.obs.shown[s]) : t \in DOMAIN truth /\ \E e \in vis : ToString(e[1]) = s /\ e[1] \in truth[t],
-                   r, "C06.ShownRight")
+                   \* ... or a tag with a payload filter while a converter job is in flight: known finding C06.*:convjob
+                   conv(i) == flags.conv /\ \E t \in names(i) : HasPayload(t)
+                   rest == {i \in other : ~conv(i)}
+               IN ChkI(bad = {}, r, "C06.SearchRightCombined",
+                       IF other = {} THEN "S" ELSE IF rest = {} THEN "convjob" ELSE KindsOf(UNION {names(i) : i \in rest}))
+            /\ ChkI(\A s \in DOMAIN r.obs.shown : \A t \in S(r.obs.shown[s]) : t \in DOMAIN truth /\ \E e \in vis : ToString(e[1]) = s /\ e[1] \in truth[t],
+                    r, "C06.ShownRight",
+                    SigOf({t \in DOMAIN tags : \E s \in DOMAIN r.obs.shown : t \in S(r.obs.shown[s]) /\ ~\E e \in vis : ToString(e[1]) = s /\ e[1] \in truth[t]}))
             \* a view that evaluates undecided tags on demand (what the HTTP API does) shows exactly the tags that hold
             /\ ChkI(\A e \in vis : ToString(e[1]) \in DOMAIN r.obs.shownAll =>
                         S(r.obs.shownAll[ToString(e[1])]) = {t \in DOMAIN truth : e[1] \in truth[t]},
                     r, "C06.ShownRightOnDemand",
-                    KindsOf({t \in DOMAIN tags : \E e \in vis : ToString(e[1]) \in DOMAIN r.obs.shownAll /\
+                    SigOf({t \in DOMAIN tags : \E e \in vis : ToString(e[1]) \in DOMAIN r.obs.shownAll /\
                                  ((t \in S(r.obs.shownAll[ToString(e[1])])) # (e[1] \in truth[t]))}))
             \* cross-check of the harness against the model's own notion of truth (not a verdict)
             /\ (truth = [t \in DOMAIN tags |-> TruthOf(tags, vis, t)]) \/ Say("nonconf", r, "truth-differs-from-model")
